@@ -82,6 +82,19 @@ def Sim.op (m : Sim) (fs : List String) : Sim × String :=
        | some 0 => fin "ok" s.readerExit []      -- HEADERS on stream 0: the framer's connection error
        | some sid => fin "ok" (s.onHeaders sid) []
        | none => (m, "bad-op"))
+    | ["hdrpark", sid] =>
+      -- the reader is parked between the two halves of operateHeaders (tie T3)
+      (match sid.toNat? with
+       | some 0 => fin "nopark" s.readerExit []
+       | some sid =>
+         if s.connClosed || s.peerGone then fin "nopark" s [] else
+         let s' := s.hdrA sid
+         fin (if s'.hdrPending.isSome && !s.hdrPending.isSome then "ok" else "nopark") s' []
+       | none => (m, "bad-op"))
+    | ["unpark"] =>
+      let (s, w0) := settle FUEL s.hdrB []
+      let (s, w1) := sleepTo 1000 s (s.now + 2) w0
+      fin "ok" s w1
     | ["drain"] => fin "ok" s.drain []
     | ["pingack", h] => (match unhex h with | some d => fin "ok" (s.onPingAck d) [] | none => (m, "bad-op"))
     | ["ping"] => fin "ok" (s.onPing [9, 9, 9, 9, 9, 9, 9, 9]) []
@@ -102,7 +115,9 @@ def Sim.op (m : Sim) (fs : List String) : Sim × String :=
     | ["peerclose"] => fin "ok" { s with peerGone := true } []
     | ["close"] => fin "ok" s.close []
     | ["end"] =>
-      let (s, w0) := s.release
+      let (s, wa) := settle FUEL s.hdrB []
+      let (s, wb) := sleepTo 1000 s (s.now + 2) wa
+      let (s, w0) := (fun (p : State × List Wire) => (p.1, wb ++ p.2)) s.release
       let (s, w1) := settle FUEL s w0
       let (s, w2) := settle FUEL s.close w1
       let (s, w3) := settle FUEL { s with peerGone := true } w2
@@ -117,6 +132,7 @@ structure SEntry where
 deriving Repr, Inhabited, DecidableEq
 
 structure Snap where
+  res : String := ""
   streams : List SEntry
   wire : List String
   st : String
@@ -132,7 +148,7 @@ def kv (fields : List String) (k : String) : String :=
 
 def parseSnap (line : String) : Option Snap :=
   match line.splitOn " " with
-  | _res :: sp :: wp :: cn :: rest =>
+  | res :: sp :: wp :: cn :: rest =>
     if !sp.startsWith "streams=" || !cn.startsWith "conn=" then none else
     let ss := (sp.drop 8).toString
     let streams := if ss = "-" then [] else (ss.splitOn ",").map fun e =>
@@ -142,7 +158,7 @@ def parseSnap (line : String) : Option Snap :=
     let ws := (wp.drop 5).toString
     let cf := ((cn.drop 5).toString).splitOn ","
     let leak := match rest with | [lk] => ((lk.drop 5).toString.toInt?).getD 1 | _ => 0
-    some { streams := streams, wire := if ws = "-" then [] else ws.splitOn ",", st := cf.headD "-",
+    some { res := res, streams := streams, wire := if ws = "-" then [] else ws.splitOn ",", st := cf.headD "-",
            max := (kv cf "max").toNat?.getD 0, eof := kv cf "eof" = "1", leak := leak }
   | _ => none
 
@@ -152,6 +168,10 @@ structure MonSt where
   extClose : Bool           -- the test itself ended the connection (close / peerclose / end / protocol violation)
   ackSeen : Bool            -- the client's ack of the drain PING was sent
   late : List Nat           -- streams accepted after that ack and before the final GOAWAY appeared on the wire
+  now : Nat := 0            -- virtual time, from the sleep / unpark ops
+  drainAt : Option Nat := none   -- time of the first `drain` op
+  recv : List Nat := []     -- legal stream ids whose HEADERS the server has read (hdr / hdrpark ops)
+  parked : Option Nat := none   -- the reader is parked inside operateHeaders for this id
 deriving Inhabited
 
 def MonSt.init : MonSt := { prev := none, final := none, extClose := false, ackSeen := false, late := [] }
@@ -181,10 +201,23 @@ def monitor (m : MonSt) (fs : List String) (impl : String) : MonSt × String :=
          | some sid, some p => sid % 2 ≠ 1 || sid ≤ p.max || sid = 0
          | _, _ => false)
       | _ => false)
+    let now := m.now + (match fs with | ["sleep", ms] => ms.toNat?.getD 0 | ["unpark"] | ["end"] => 2 | _ => 0)
+    let drainAt := match fs, m.drainAt with | ["drain"], none => some m.now | _, d => d
     let ackSeen := m.ackSeen || (match fs with | ["pingack", d] => d = "0106010800030309" | _ => false)
+    -- the final GOAWAY has been triggered: the drain PING was acked, or the 5 s fallback timer (started when loopy wrote
+    -- the heads-up GOAWAY, not before the Drain call) may have fired
+    let triggered := m.ackSeen || (match m.drainAt with | some t => t + 5000 ≤ now | none => false)
     let prevIds : List Nat := match m.prev with | some p => p.streams.map (fun (e : SEntry) => e.id) | none => []
     let newIds := (c.streams.map (fun (e : SEntry) => e.id)).filter fun i => !(prevIds.contains i)
-    let late := if m.ackSeen && m.final.isNone then m.late ++ newIds else m.late
+    let late := if triggered && m.final.isNone then m.late ++ newIds else m.late
+    let legal (sid : Nat) : Bool := match m.prev with | some p => sid % 2 = 1 && sid > p.max && p.st ≠ "C" && !p.eof | none => false
+    let recv := match fs with
+      | ["hdr", sid] | ["hdrpark", sid] => (match sid.toNat? with | some k => if legal k then m.recv ++ [k] else m.recv | none => m.recv)
+      | _ => m.recv
+    let parked : Option Nat := match fs with
+      | ["hdrpark", sid] => if c.res = "ok" then sid.toNat? else m.parked
+      | ["unpark"] | ["end"] => none
+      | _ => m.parked
     let fin := finalOf c.wire
     let final := match fin with | some (i, 0) => some i | _ => m.final
     let v1 : List (Option String) :=
@@ -206,11 +239,24 @@ def monitor (m : MonSt) (fs : List String) (impl : String) : MonSt × String :=
           c.streams.map fun e =>
             if e.id ≤ n && !(e.flags.toList.contains 'd') then
               some (s!"connection closed by the draining server while accepted stream {e.id} <= final GOAWAY id {n} is unfinished" ++
-                (if late.contains e.id then " (accepted after the PING ack, before loopy wrote the final GOAWAY)" else ""))
+                (if late.contains e.id then " (accepted after the final GOAWAY was triggered, before loopy wrote it)" else ""))
             else none
         else []
       | none => []
+    -- "a final GOAWAY whose id is the highest stream id it accepted": a stream the final GOAWAY covers must have been
+    -- handed to a handler (in this harness every request is well-formed), not silently dropped
+    let v4 : List (Option String) :=
+      match final with
+      | some n =>
+        if c.st = "C" && ext then [] else
+        recv.map fun k =>
+          if k ≤ n && parked ≠ some k && !((c.streams.map fun (e : SEntry) => e.id).contains k) then
+            some s!"the final GOAWAY({n}) covers stream {k}, whose HEADERS the server read and silently dropped"
+          else none
+      | none => []
     let leak : Option String := if c.leak ≠ 0 then some s!"{c.leak} goroutine(s) outlive the closed connection" else none
-    ({ prev := some c, final := final, extClose := ext, ackSeen := ackSeen, late := late }, firstViol (v1 ++ [v3] ++ v2 ++ [leak]))
+    ({ prev := some c, final := final, extClose := ext, ackSeen := ackSeen, late := late, recv := recv, parked := parked,
+       now := now, drainAt := drainAt },
+      firstViol (v1 ++ [v3] ++ v2 ++ v4 ++ [leak]))
 
 end GrpcModel.ServerDrainSim
